@@ -433,3 +433,387 @@ Proof.
 Qed.
 
 End Contract.
+
+(* ------------------------------------------------------------------------------------ *)
+(** * 3. MemMapFs honours the contract *)
+
+(* what MemMapFs shows for a path: kind, bytes, mode, mtime *)
+Definition mview (s : mst) (p : str) : option (bool * bytes * Z * Z) :=
+  match lookup s (normalize_path p) with
+  | None => None
+  | Some f => Some (match get_node s f with
+                    | Some n => (ndir n, ndata n, nmode n, nmtime n)
+                    | None => (false, [], 0, 0)
+                    end)
+  end.
+
+Lemma mview_none_stat s p : mview s p = None <-> snd (m_step s (Stat p)) = RErr (EW KNotExist).
+Proof.
+  unfold mview, m_step. cbn [m_step_raw]. unfold m_stat.
+  destruct (lookup s (normalize_path p)) as [f|]; [|split; reflexivity].
+  destruct (get_node s f); split; discriminate.
+Qed.
+
+Definition created (s s1 : mst) (name : str) (d : nat) (dn : node) : Prop :=
+  let f := length (mheap s) in
+  mdata s1 = alist_set name f (mdata s) /\ length (mheap s1) = S f /\
+  (exists nf, get_node s1 f = Some nf) /\ get_node s1 d = Some (kid_added name f dn) /\
+  (forall x, x <> d -> x <> f -> get_node s1 x = get_node s x).
+
+Definition is_dir_node (s : mst) (k : str) : Prop :=
+  exists d dn, lookup s k = Some d /\ get_node s d = Some dn /\ nhasdir dn = true.
+
+Lemma created_facts s s1 name d dn :
+  mem_wf s -> lookup s name = None -> normalize_path name = name ->
+  get_node s d = Some dn -> nhasdir dn = true -> created s s1 name d dn ->
+  mview s1 name <> None /\ (forall m, mview s m <> None -> mview s1 m = mview s m) /\ mem_wf s1 /\
+  (forall k, is_dir_node s k -> is_dir_node s1 k).
+Proof.
+  intros Hwf Hnone Hnorm Hd Hhd [Hmd [Hlen [[nf Hnf] [Hdn Hoth]]]]. set (f := length (mheap s)) in *.
+  assert (Hdlt : (d < f)%nat) by (apply get_node_lt in Hd; exact Hd).
+  assert (Hl1 : forall k, lookup s1 k = if beqb k name then Some f else lookup s k).
+  { intros k. unfold lookup. rewrite Hmd. apply alist_get_set. }
+  assert (Hkid : forall dn0, nhasdir dn0 = true ->
+            (ndir (kid_added name f dn0), ndata (kid_added name f dn0), nmode (kid_added name f dn0), nmtime (kid_added name f dn0))
+            = (ndir dn0, ndata dn0, nmode dn0, nmtime dn0) /\ nhasdir (kid_added name f dn0) = true).
+  { intros dn0 H0. unfold kid_added, init_dir. rewrite H0. now split. }
+  repeat split.
+  - unfold mview. rewrite Hnorm, Hl1, beqb_refl. discriminate.
+  - intros m Hm. unfold mview in *. destruct (lookup s (normalize_path m)) as [x|] eqn:El; [|congruence].
+    rewrite Hl1. destruct (beqb (normalize_path m) name) eqn:Eb.
+    + apply beqb_true_iff in Eb. rewrite Eb in El. congruence.
+    + rewrite El. f_equal. pose proof (Hwf _ _ El) as Hx. fold f in Hx.
+      destruct (Nat.eq_dec x d) as [->|Hxd].
+      * rewrite Hdn, Hd. now apply Hkid.
+      * rewrite Hoth by lia. reflexivity.
+  - intros k v Hk. rewrite Hl1 in Hk. rewrite Hlen. destruct (beqb k name).
+    + inversion Hk. lia.
+    + apply Hwf in Hk. fold f in Hk. lia.
+  - intros k [x [nx [Hk [Hx Hh]]]].
+    assert (Hkn : beqb k name = false) by (apply beqb_false_iff; intros ->; congruence).
+    exists x. destruct (Nat.eq_dec x d) as [->|Hxd].
+    + exists (kid_added name f dn). rewrite Hl1, Hkn. repeat split; try assumption. now apply Hkid.
+    + exists nx. rewrite Hl1, Hkn. repeat split; try assumption.
+      rewrite Hoth; [exact Hx | exact Hxd |]. apply get_node_lt in Hx. fold f in Hx. lia.
+Qed.
+
+Lemma tflags_excl : flag_has temp_flags o_excl && flag_has temp_flags o_create = true. Proof. reflexivity. Qed.
+Lemma tflags_create : flag_has temp_flags o_create = true. Proof. reflexivity. Qed.
+Lemma tflags_append : flag_has temp_flags o_append = false. Proof. reflexivity. Qed.
+Lemma tflags_trunc : flag_has temp_flags o_trunc = false. Proof. reflexivity. Qed.
+Lemma tflags_ro : (Z.land temp_flags memfs_access_mask =? 0) = false. Proof. reflexivity. Qed.
+
+Definition bump (s : mst) : mst := mkM (mdata s) (mheap s) (mhandles s) (mclock s + 1).
+Lemma m_step_bump s o : m_step s o = (bump (fst (m_step_raw s o)), snd (m_step_raw s o)).
+Proof. unfold m_step. now destruct (m_step_raw s o). Qed.
+
+Lemma get_bump s x : get_node (bump s) x = get_node s x. Proof. reflexivity. Qed.
+
+(* O_CREATE|O_EXCL on an existing name: EEXIST, nothing changes *)
+Lemma excl_open_existing s n perm : lookup s (normalize_path n) <> None ->
+  m_step s (OpenFile n temp_flags perm) = (bump s, RErr (EW KExist)).
+Proof.
+  intros H. rewrite m_step_bump. cbn [m_step_raw]. unfold m_openfile. rewrite tflags_excl.
+  destruct (lookup s (normalize_path n)); [reflexivity | congruence].
+Qed.
+
+Lemma set_file_mode_found' st nm m f :
+  lookup st (normalize_path nm) = Some f -> set_file_mode st nm m = (upd_node st f (with_mode m), ROk).
+Proof. intros H. unfold set_file_mode. now rewrite H. Qed.
+
+(* ... on a free name whose parent directory is present: exactly that entry is created *)
+Lemma excl_open_fresh s n perm d dn :
+  let name := normalize_path n in
+  lookup s name = None -> lookup s (parent_key name) = Some d -> get_node s d = Some dn ->
+  exists s1, m_step s (OpenFile n temp_flags perm) = (s1, RHandle (length (mhandles s))) /\
+             created s s1 name d dn.
+Proof.
+  intros name Hnone Hp Hd.
+  assert (Hne : parent_key name <> name) by (intros E; rewrite E in Hp; congruence).
+  rewrite m_step_bump. cbn [m_step_raw]. unfold m_openfile. fold name.
+  rewrite Hnone, tflags_create, tflags_append, tflags_trunc, tflags_ro. cbn [andb negb].
+  rewrite m_create_node_attach.
+  destruct (attach_parent_present s name (new_file name (mclock s)) 0 d dn eq_refl Hp Hd Hne)
+    as [Hmd [Hhd [Hck [Hlen [Hf [Hdn Hoth]]]]]].
+  set (f := length (mheap s)) in *. set (s3 := attach s name (new_file name (mclock s)) 0) in *.
+  unfold alloc_handle. cbn [fst snd].
+  match goal with |- context [set_file_mode ?st ?nm ?m] =>
+    rewrite (set_file_mode_found' st nm m f) end.
+  2:{ unfold name. rewrite normalize_idempotent. fold name. unfold lookup. cbn [mdata]. rewrite Hmd.
+      apply alist_get_set_same. }
+  cbn [fst snd]. rewrite Hhd. eexists. split; [reflexivity|].
+  assert (Hdf : d <> f) by (apply get_node_lt in Hd; unfold f; lia).
+  unfold created. fold f. split; [|split; [|split; [|split]]].
+  - cbn [bump mdata]. now rewrite upd_node_data.
+  - cbn [bump mheap]. now rewrite upd_node_heap_length.
+  - eexists. rewrite get_bump. refine (get_upd_same _ _ _ _ _). exact Hf.
+  - rewrite get_bump, (get_upd_other _ f d _ (not_eq_sym Hdf)). exact Hdn.
+  - intros x Hxd Hxf. rewrite get_bump, (get_upd_other _ f x _ (not_eq_sym Hxf)).
+    now apply (Hoth x).
+Qed.
+
+Lemma mkdir_existing s n perm : lookup s (normalize_path n) <> None ->
+  m_step s (Mkdir n perm) = (bump s, RErr (EW KExist)).
+Proof.
+  intros H. rewrite m_step_bump. cbn [m_step_raw]. unfold m_mkdir.
+  destruct (lookup s (normalize_path n)); [reflexivity | congruence].
+Qed.
+
+Lemma mkdir_fresh s n perm d dn :
+  let name := normalize_path n in
+  lookup s name = None -> lookup s (parent_key name) = Some d -> get_node s d = Some dn ->
+  exists s1, m_step s (Mkdir n perm) = (s1, ROk) /\ created s s1 name d dn.
+Proof.
+  intros name Hnone Hp Hd.
+  assert (Hne : parent_key name <> name) by (intros E; rewrite E in Hp; congruence).
+  set (nd := with_mode (Z.lor mode_dir (Z.land perm chmod_bits)) (new_dir name (mclock s))).
+  assert (Emk : m_mkdir s n perm =
+                set_file_mode (attach s name nd (Z.land perm chmod_bits)) name (Z.lor (Z.land perm chmod_bits) mode_dir)).
+  { unfold m_mkdir. fold name. rewrite Hnone. reflexivity. }
+  rewrite m_step_bump. cbn [m_step_raw]. rewrite Emk.
+  destruct (attach_parent_present s name nd (Z.land perm chmod_bits) d dn eq_refl Hp Hd Hne)
+    as [Hmd [Hhd [Hck [Hlen [Hf [Hdn Hoth]]]]]].
+  set (f := length (mheap s)) in *. set (s3 := attach s name nd (Z.land perm chmod_bits)) in *.
+  rewrite (set_file_mode_found' s3 name _ f).
+  2:{ unfold name. rewrite normalize_idempotent. fold name. unfold lookup. rewrite Hmd. apply alist_get_set_same. }
+  cbn [fst snd]. eexists. split; [reflexivity|].
+  assert (Hdf : d <> f) by (apply get_node_lt in Hd; unfold f; lia).
+  unfold created. fold f. split; [|split; [|split; [|split]]].
+  - cbn [bump mdata]. now rewrite upd_node_data.
+  - cbn [bump mheap]. now rewrite upd_node_heap_length.
+  - eexists. rewrite get_bump. refine (get_upd_same _ _ _ _ _). exact Hf.
+  - rewrite get_bump, (get_upd_other _ f d _ (not_eq_sym Hdf)). exact Hdn.
+  - intros x Hxd Hxf. rewrite get_bump, (get_upd_other _ f x _ (not_eq_sym Hxf)).
+    now apply (Hoth x).
+Qed.
+
+Section MemInstance.
+Variable dirs : str -> Prop.          (* the directories the calls name (effective, non-empty) *)
+
+(* state invariant: the path map points into the heap and every such directory is a directory *)
+Definition mem_good (s : mst) : Prop :=
+  mem_wf s /\ forall dir, dirs dir -> is_dir_node s (normalize_path dir).
+Definition mem_cand (n : str) : Prop :=
+  exists dir b, dirs dir /\ dir <> [] /\ good_seg b /\ n = join2 dir b.
+Definition mem_is_create (mk : str -> op) : Prop := mk = temp_file_op \/ mk = temp_dir_op.
+
+Lemma mem_cand_parent s n : mem_good s -> mem_cand n ->
+  normalize_path n = n /\
+  exists d dn, lookup s (parent_key n) = Some d /\ get_node s d = Some dn /\ nhasdir dn = true.
+Proof.
+  intros [_ Hd] [dir [b [Hdir [Hne [Hb ->]]]]].
+  destruct (join2_good_split dir b Hne Hb) as [_ [H2 [H3 _]]]. split; [exact H3|].
+  unfold parent_key. rewrite H2, normalize_clean. exact (Hd _ Hdir).
+Qed.
+
+Lemma mview_none s n : normalize_path n = n -> (mview s n = None <-> lookup s n = None).
+Proof. intros H. unfold mview. rewrite H. destruct (lookup s n); split; congruence. Qed.
+
+Lemma mem_good_bump s : mem_good s -> mem_good (bump s).
+Proof. now intros H. Qed.
+
+(* the one case analysis behind the three contract clauses *)
+Lemma mem_create_cases mk s n s' r : mem_is_create mk -> mem_good s -> mem_cand n ->
+  m_step s (mk n) = (s', r) ->
+  (lookup s n <> None /\ r = RErr (EW KExist) /\ s' = bump s) \/
+  (lookup s n = None /\ (r = ROk \/ exists h, r = RHandle h) /\
+   exists d dn, get_node s d = Some dn /\ nhasdir dn = true /\ created s s' n d dn).
+Proof.
+  intros Hmk Hg Hc H. destruct (mem_cand_parent s n Hg Hc) as [Hn [d [dn [Hp [Hd Hh]]]]].
+  destruct (lookup s n) as [x|] eqn:El.
+  - left. split; [discriminate|].
+    assert (Hex : lookup s (normalize_path n) <> None) by (rewrite Hn, El; discriminate).
+    destruct Hmk as [-> | ->]; unfold temp_file_op, temp_dir_op in H.
+    + rewrite (excl_open_existing _ _ _ Hex) in H. inversion H; now subst.
+    + rewrite (mkdir_existing _ _ _ Hex) in H. inversion H; now subst.
+  - right. split; [reflexivity|].
+    assert (Hnone : lookup s (normalize_path n) = None) by now rewrite Hn.
+    assert (Hp' : lookup s (parent_key (normalize_path n)) = Some d) by now rewrite Hn.
+    destruct Hmk as [-> | ->]; unfold temp_file_op, temp_dir_op in H.
+    + destruct (excl_open_fresh s n 384 d dn Hnone Hp' Hd) as [s1 [E Hcr]]. rewrite E in H. inversion H; subst.
+      split; [right; now eexists|]. exists d, dn. rewrite Hn in Hcr. split; [exact Hd|]. split; [exact Hh | exact Hcr].
+    + destruct (mkdir_fresh s n 448 d dn Hnone Hp' Hd) as [s1 [E Hcr]]. rewrite E in H. inversion H; subst.
+      split; [now left|]. exists d, dn. rewrite Hn in Hcr. split; [exact Hd|]. split; [exact Hh | exact Hcr].
+Qed.
+
+Lemma mem_contract_ok mk s n s' r : mem_is_create mk -> mem_good s -> mem_cand n -> m_step s (mk n) = (s', r) ->
+  (r = ROk \/ exists h, r = RHandle h) ->
+  mview s n = None /\ mview s' n <> None /\ (forall m, mview s m <> None -> mview s' m = mview s m) /\ mem_good s'.
+Proof.
+  intros Hmk Hg Hc H Hr. destruct (mem_cand_parent s n Hg Hc) as [Hn _].
+  destruct (mem_create_cases _ _ _ _ _ Hmk Hg Hc H) as [[_ [-> _]] | [Hnone [_ [d [dn [Hd [Hh Hcr]]]]]]].
+  - destruct Hr as [Hr | [h Hr]]; discriminate.
+  - destruct Hg as [Hwf Hdirs].
+    destruct (created_facts s s' n d dn Hwf Hnone Hn Hd Hh Hcr) as [H1 [H2 [H3 H4]]].
+    split; [now apply mview_none|]. split; [exact H1|]. split; [exact H2|]. split; [exact H3|].
+    intros dir Hdir. apply H4. now apply Hdirs.
+Qed.
+
+Lemma mem_contract_err mk s n s' e : mem_is_create mk -> mem_good s -> mem_cand n ->
+  m_step s (mk n) = (s', RErr e) -> (forall m, mview s' m = mview s m) /\ mem_good s'.
+Proof.
+  intros Hmk Hg Hc H.
+  destruct (mem_create_cases _ _ _ _ _ Hmk Hg Hc H) as [[_ [_ ->]] | [_ [[Hr | [h Hr]] _]]]; try discriminate.
+  split; [reflexivity | now apply mem_good_bump].
+Qed.
+
+Lemma mem_contract_total mk s n s' r : mem_is_create mk -> mem_good s -> mem_cand n -> m_step s (mk n) = (s', r) ->
+  r = ROk \/ (exists h, r = RHandle h) \/ exists e, r = RErr e.
+Proof.
+  intros Hmk Hg Hc H.
+  destruct (mem_create_cases _ _ _ _ _ Hmk Hg Hc H) as [[_ [-> _]] | [_ [[-> | [h ->]] _]]].
+  - right. right. now eexists.
+  - now left.
+  - right. left. now eexists.
+Qed.
+
+(* a failed exclusive create leaves path map and nodes exactly as they were *)
+Lemma mem_failed_create_view mk s n s' e : mem_is_create mk -> mem_good s -> mem_cand n ->
+  m_step s (mk n) = (s', RErr e) -> fs_view s' = fs_view s /\ is_exist e = true.
+Proof.
+  intros Hmk Hg Hc H.
+  destruct (mem_create_cases _ _ _ _ _ Hmk Hg Hc H) as [[_ [Hr ->]] | [_ [[Hr | [h Hr]] _]]]; try discriminate.
+  inversion Hr. now split.
+Qed.
+
+End MemInstance.
+
+(* ------------------------------------------------------------------------------------ *)
+(** * the theorems for TempFile / TempDir *)
+
+(* over any filesystem honouring the contract *)
+Section AbstractTheorems.
+Context {St V : Type} (step : St -> op -> St * res) (view : St -> str -> option V).
+Variable is_create : (str -> op) -> Prop.
+Variable good : St -> Prop.
+Variable cand : str -> Prop.
+Hypothesis contract_ok : forall mk s n s' r, is_create mk -> good s -> cand n -> step s (mk n) = (s', r) ->
+  (r = ROk \/ exists h, r = RHandle h) ->
+  view s n = None /\ view s' n <> None /\ unchanged_existing view s s' /\ good s'.
+Hypothesis contract_err : forall mk s n s' e, is_create mk -> good s -> cand n -> step s (mk n) = (s', RErr e) ->
+  (forall m, view s' m = view s m) /\ good s'.
+Hypothesis create_file : is_create temp_file_op.
+Hypothesis create_dir : is_create temp_dir_op.
+
+Definition eff_dir (ostmp dir : str) : str := if is_empty dir then ostmp else dir.
+
+Theorem temp_file_fresh_shaped ostmp s g dir pattern s' g' name h :
+  good s ->
+  (forall d, is_d9 d -> cand (join2 (eff_dir ostmp dir)
+                                (fst (temp_prefix_suffix pattern) ++ d ++ snd (temp_prefix_suffix pattern)))) ->
+  temp_file step ostmp s g dir pattern = (s', g', TempOk name h) ->
+  view s name = None /\ view s' name <> None /\ unchanged_existing view s s' /\
+  shaped (eff_dir ostmp dir) (fst (temp_prefix_suffix pattern)) (snd (temp_prefix_suffix pattern)) name.
+Proof.
+  intros Hg Hc H. unfold temp_file in H. fold (eff_dir ostmp dir) in H.
+  destruct (temp_prefix_suffix pattern) as [prefix suffix]. cbn [fst snd] in *.
+  assert (Hnil : forall nm hh, TempNil <> TempOk nm hh) by (intros; discriminate).
+  destruct (temp_loop_fresh step view is_create good cand contract_ok contract_err _ _ _ _ _ _ _ _ _ _ _ _ _
+              create_file Hg Hc Hnil H) as [H1 [H2 [H3 [_ H5]]]].
+  now repeat split.
+Qed.
+
+Theorem temp_dir_fresh_shaped ostmp s g dir prefix s' g' name h :
+  good s ->
+  (forall d, is_d9 d -> cand (join2 (eff_dir ostmp dir) (prefix ++ d ++ []))) ->
+  temp_dir step ostmp s g dir prefix = (s', g', TempOk name h) ->
+  view s name = None /\ view s' name <> None /\ unchanged_existing view s s' /\
+  shaped (eff_dir ostmp dir) prefix [] name.
+Proof.
+  intros Hg Hc H. unfold temp_dir in H. fold (eff_dir ostmp dir) in H.
+  assert (Hnil : forall nm hh, TempNil <> TempOk nm hh) by (intros; discriminate).
+  destruct (temp_loop_fresh step view is_create good cand contract_ok contract_err _ _ _ _ _ _ _ _ _ _ _ _ _
+              create_dir Hg Hc Hnil H) as [H1 [H2 [H3 [_ H5]]]].
+  now repeat split.
+Qed.
+
+End AbstractTheorems.
+
+(* on MemMapFs *)
+Definition call_sane (s : mst) (c : tcall) : Prop :=
+  let '(isfile, dir, prefix, suffix) := c in
+  dir <> [] /\ slash_free prefix /\ slash_free suffix /\ is_dir_node s (normalize_path dir).
+
+Definition call_dir (c : tcall) : str := let '(_, dir, _, _) := c in dir.
+
+Lemma mem_calls_ok s calls : mem_wf s -> Forall (call_sane s) calls ->
+  mem_good (fun x => In x (map call_dir calls)) s /\
+  Forall (call_ok (mem_cand (fun x => In x (map call_dir calls)))) calls.
+Proof.
+  intros Hwf Hs. split.
+  - split; [exact Hwf|]. intros dir Hin. apply in_map_iff in Hin as [[[[b d] p] q] [<- Hin]].
+    rewrite Forall_forall in Hs. now destruct (Hs _ Hin) as [_ [_ [_ H]]].
+  - rewrite Forall_forall in *. intros [[[b d] p] q] Hin dd Hdd.
+    destruct (Hs _ Hin) as [H1 [H2 [H3 _]]]. exists d, (p ++ dd ++ q). repeat split; try assumption.
+    + apply in_map_iff. now exists (b, d, p, q).
+    + now apply temp_base_good.
+    + now apply temp_base_good.
+    + now apply temp_base_good.
+    + now apply temp_base_good.
+Qed.
+
+Theorem temp_file_mem ostmp s g dir pattern s' g' name h :
+  let dir1 := eff_dir ostmp dir in
+  let prefix := fst (temp_prefix_suffix pattern) in let suffix := snd (temp_prefix_suffix pattern) in
+  mem_wf s -> call_sane s (true, dir1, prefix, suffix) ->
+  temp_file m_step ostmp s g dir pattern = (s', g', TempOk name h) ->
+  mview s name = None /\ mview s' name <> None /\
+  (forall m, mview s m <> None -> mview s' m = mview s m) /\
+  path_dir name = clean dir1 /\ exists d, is_d9 d /\ snd (path_split name) = prefix ++ d ++ suffix.
+Proof.
+  intros dir1 prefix suffix Hwf Hs H. pose proof Hs as [Hne [Hp [Hsf Hd]]].
+  destruct (mem_calls_ok s [(true, dir1, prefix, suffix)] Hwf (Forall_cons _ Hs (Forall_nil _))) as [Hg Hc].
+  set (dirs := fun x => In x (map call_dir [(true, dir1, prefix, suffix)])) in *.
+  inversion Hc as [|? ? Hc1 _]; subst. cbn [call_ok] in Hc1.
+  destruct (temp_file_fresh_shaped m_step mview mem_is_create (mem_good dirs) (mem_cand dirs)
+              (mem_contract_ok dirs) (mem_contract_err dirs) (or_introl eq_refl)
+              ostmp s g dir pattern s' g' name h Hg Hc1 H) as [H1 [H2 [H3 H4]]].
+  split; [exact H1|]. split; [exact H2|]. split; [exact H3|].
+  now apply shaped_direct_child.
+Qed.
+
+Theorem temp_dir_mem ostmp s g dir prefix s' g' name h :
+  let dir1 := eff_dir ostmp dir in
+  mem_wf s -> call_sane s (false, dir1, prefix, []) ->
+  temp_dir m_step ostmp s g dir prefix = (s', g', TempOk name h) ->
+  mview s name = None /\ mview s' name <> None /\
+  (forall m, mview s m <> None -> mview s' m = mview s m) /\
+  path_dir name = clean dir1 /\ exists d, is_d9 d /\ snd (path_split name) = prefix ++ d ++ [].
+Proof.
+  intros dir1 Hwf Hs H. pose proof Hs as [Hne [Hp [Hsf Hd]]].
+  destruct (mem_calls_ok s [(false, dir1, prefix, [])] Hwf (Forall_cons _ Hs (Forall_nil _))) as [Hg Hc].
+  set (dirs := fun x => In x (map call_dir [(false, dir1, prefix, [])])) in *.
+  inversion Hc as [|? ? Hc1 _]; subst. cbn [call_ok] in Hc1.
+  destruct (temp_dir_fresh_shaped m_step mview mem_is_create (mem_good dirs) (mem_cand dirs)
+              (mem_contract_ok dirs) (mem_contract_err dirs) (or_intror eq_refl)
+              ostmp s g dir prefix s' g' name h Hg Hc1 H) as [H1 [H2 [H3 H4]]].
+  split; [exact H1|]. split; [exact H2|]. split; [exact H3|].
+  now apply shaped_direct_child.
+Qed.
+
+Theorem temp_seq_mem calls s g s' g' xs :
+  mem_wf s -> Forall (call_sane s) calls -> temp_seq m_step s g calls = (s', g', xs) ->
+  NoDup (seq_names xs) /\
+  (forall n, In n (seq_names xs) -> mview s n = None /\ mview s' n <> None) /\
+  (forall m, mview s m <> None -> mview s' m = mview s m).
+Proof.
+  intros Hwf Hs H. destruct (mem_calls_ok s calls Hwf Hs) as [Hg Hc].
+  set (dirs := fun x => In x (map call_dir calls)) in *.
+  destruct (temp_seq_distinct m_step mview mem_is_create (mem_good dirs) (mem_cand dirs)
+              (mem_contract_ok dirs) (mem_contract_err dirs) (or_introl eq_refl) (or_intror eq_refl)
+              (mem_contract_total dirs) calls s g s' g' xs Hg Hc H) as [H1 [H2 [H3 _]]].
+  split; [exact H1|]. split; [exact H2 | exact H3].
+Qed.
+
+Theorem conc_mem calls schedule s g s' g' cs :
+  mem_wf s -> Forall (call_sane s) calls -> conc_run m_step s g calls schedule = (s', g', cs) ->
+  NoDup (conc_names cs) /\
+  (forall n, In n (conc_names cs) -> mview s n = None /\ mview s' n <> None) /\
+  (forall m, mview s m <> None -> mview s' m = mview s m).
+Proof.
+  intros Hwf Hs H. destruct (mem_calls_ok s calls Hwf Hs) as [Hg Hc].
+  set (dirs := fun x => In x (map call_dir calls)) in *.
+  exact (conc_distinct m_step mview mem_is_create (mem_good dirs) (mem_cand dirs)
+              (mem_contract_ok dirs) (mem_contract_err dirs) (or_introl eq_refl) (or_intror eq_refl)
+              (mem_contract_total dirs) calls schedule s g s' g' cs Hg Hc H).
+Qed.
